@@ -96,7 +96,7 @@ func genPlan(t *rapid.T, tier string) any {
 	if tier == "thorough" {
 		max = 30
 	}
-	jumps := tier == "thorough" && rapid.IntRange(0, 3).Draw(t, "jumps") == 0
+	jumps := rapid.IntRange(0, 3).Draw(t, "jumps") == 0
 	n := rapid.IntRange(2, max).Draw(t, "nsteps")
 	for i := 0; i < n; i++ {
 		s := Step{ID: rapid.IntRange(0, nIDs-1).Draw(t, "id")}
@@ -269,6 +269,12 @@ func run(t *testing.T, plan any, keep bool) *simcheck.Outcome {
 					return
 				}
 				stored[st.ID] = st.Content
+				// A store writes the index entry anew: its age is counted from this store, whatever
+				// the clock said at earlier uses (this differs from "latest use" only after a backward
+				// clock jump, a fault the statement does not define; lookups never make an entry older).
+				if fm := files[rel(cachekit.IndexPath(dir, id))]; fm != nil {
+					fm.known = false
+				}
 				use(cachekit.IndexPath(dir, id), now)
 				use(cachekit.DataPath(dir, outIDs[st.Content]), now)
 			case "get":
@@ -464,7 +470,7 @@ var harness = &simcheck.Harness{
 	Level:    "exploration",
 	Rule: "rapid draws a history of up to 16 (quick) / 30 (thorough) steps: Put, Get, GetBytes, GetFile, OutputFile, clock advances drawn mostly from boundary values " +
 		"(1s ... 24h+-1m, 5d+-1m, 5d1h+-1s/1m, 30d), Trim, trim-record rewrites (valid with recent/old/future offsets, garbage, empty, missing), foreign files, " +
-		"directly aged entry files, and (thorough, a quarter of the plans) backward clock jumps; plus macro steps (look an entry up after a gap of under two hours; move the clock to an entry file's last use + 5d or 5d1h +- jitter and Trim; move it to the trim record + 24h +- jitter and Trim); non-trivial = the history contains a Trim; " +
+		"directly aged entry files, and (a quarter of the plans) backward clock jumps; plus macro steps (look an entry up after a gap of under two hours; move the clock to an entry file's last use + 5d or 5d1h +- jitter and Trim; move it to the trim record + 24h +- jitter and Trim); non-trivial = the history contains a Trim; " +
 		"distinct by the hash of the intercepted file-operation sequence",
 	Gen:     genPlan,
 	NewPlan: func() any { return &Plan{} },
@@ -478,6 +484,7 @@ var harness = &simcheck.Harness{
 	Assumptions: []string{
 		"a Get (index-only lookup) counts as a use of the index file only, GetBytes/GetFile/OutputFile/Put as a use of the data file too (narrowest reading of 'looked up')",
 		"trim records in the future are don't-care for the due/not-due clauses (the statement is silent); keep and foreign-file clauses always apply",
+		"under backward clock jumps (a fault kind the statement does not define) an entry's age is counted from its latest store, or from any later lookup whose clock reading is newer; with a monotonic clock this is simply the latest use",
 		"the simulated clock moves in whole seconds (the trim record has one-second granularity)",
 	},
 	RequiredCounters: []string{"trims_due", "trims_not_due", "clock_reads", "entry_files_removed_by_trim"},
